@@ -32,8 +32,8 @@ Load(k) == /\ Len(hist) < Depth
 Next == \E k \in Classes : Load(k)
 \* every group present is attributed to the most recent call that produces it, and to no later one
 Attribution == \A g \in Groups :
-   /\ src[g] # 0 => g \in Produces(hist[src[g]]) /\ \A j \in (src[g] + 1)..Len(hist) : g \notin Produces(hist[j])
-   /\ src[g] = 0 => \A j \in 1..Len(hist) : g \notin Produces(hist[j])
+   /\ src[g] # 0 => (\E j \in DOMAIN hist : j = src[g] /\ g \in Produces(hist[j])) /\ \A j \in DOMAIN hist : j > src[g] => g \notin Produces(hist[j])
+   /\ src[g] = 0 => \A j \in DOMAIN hist : g \notin Produces(hist[j])
 \* nothing else distinguishes two histories: the state is a function of the attribution alone
 Emit == hist = <<>> \/ PrintT(ToJson([h |-> hist, src |-> src, counted |-> counted]))
 ====
